@@ -432,6 +432,67 @@ def judge(case):
                     if (str(obj.as_decl), str(obj.as_def)) != (str(ref.as_decl), str(ref.as_def)):
                         bad('stale-rendering-after-change', f'{what}: after {field_}={value!r}: decl={str(obj.as_decl)!r} '
                                                              f'expected {str(ref.as_decl)!r}')
+        elif kind == 'failed-render':
+            # FAILURE PATHS: a block description holds an item that cannot be rendered as text (a Param / Function object,
+            # whose __str__ raises CppGenError by design, or an object whose __str__ raises something else); the attempt
+            # fails; the SAME list object is corrected in place and used again: every block built from it renders like one
+            # built from an equal fresh list, and blocks that existed before are not affected
+            import copy  # pylint: disable=import-outside-toplevel
+            from dznpy.scoping import NamespaceIds  # pylint: disable=import-outside-toplevel
+            from dznpy.text_gen import TextBlock  # pylint: disable=import-outside-toplevel
+
+            class Boom(Exception):
+                pass
+
+            class Poison:  # pylint: disable=too-few-public-methods
+                def __str__(self):
+                    raise Boom('poisoned item')
+            struct = G.Struct('Owner')
+            culprit = {'param': lambda: G.Param(mk_type(RET_TYPES[1]), 'p'),
+                       'function': lambda: G.Function(return_type=mk_type(RET_TYPES[0]), name='f', scope=struct),
+                       'poison': Poison}[case['culprit']]()
+            items = {'flat': ['int a;', culprit, 'int b;'], 'nested': ['int a;', ['x();', [culprit]], 'int b;'],
+                     'dict': {'first': 'int a;', 'second': culprit, 'third': 'int b;'}, 'first': [culprit, 'int b;']}[case['shape']]
+            mk = {'struct': lambda c: G.Struct('A', c), 'class': lambda c: G.Class('A', c),
+                  'namespace': lambda c: G.Namespace(NamespaceIds(['A']), c),
+                  'function': lambda c: G.Function(return_type=mk_type(RET_TYPES[0]), name='fn', scope=struct, contents=c),
+                  'constructor': lambda c: G.Constructor(struct, contents=c),
+                  'section': lambda c: G.AccessSpecifiedSection(G.AccessSpecifier.PUBLIC, c)}[case['what']]
+
+            def render(obj):
+                return (str(obj.as_decl), str(obj.as_def)) if case['what'] in ('function', 'constructor') else str(obj)
+            bystander = mk(TextBlock(['int kept;']))
+            bystander_before = render(bystander)
+            failed = 0
+            for _rep in range(case['attempts']):
+                try:
+                    render(mk(TextBlock(items)))
+                except (G.CppGenError, Boom):
+                    failed += 1
+            if not failed:
+                bad('unrenderable-item-accepted', f'{case}')
+            # repair the same container objects in place
+
+            def repair(obj):
+                if isinstance(obj, list):
+                    for i, x in enumerate(obj):
+                        if x is culprit:
+                            obj[i] = 'int fixed;'
+                        else:
+                            repair(x)
+                elif isinstance(obj, dict):
+                    for k, x in list(obj.items()):
+                        if x is culprit:
+                            obj[k] = 'int fixed;'
+                        else:
+                            repair(x)
+            repair(items)
+            got = render(mk(TextBlock(items)))
+            want = render(mk(TextBlock(copy.deepcopy(items))))
+            if got != want or 'fixed' not in ''.join(got):
+                bad('block-from-repaired-list', f'{case}: {got!r} expected {want!r}')
+            if render(bystander) != bystander_before:
+                bad('failed-rendering-changed-another-block', f'{case}')
         elif kind == 'helpers':
             from dznpy.scoping import NamespaceIds  # pylint: disable=import-outside-toplevel
             ids, root, name, dflt = case['ids'], case['root'], case['name'], case['default']
@@ -572,6 +633,9 @@ def other_cases():
     for what, form, later in itertools.product(('struct', 'class', 'namespace'),
                                                ('plain', 'comment', 'header', 'indented', 'nested-header', 'section'), (False, True)):
         yield {'kind': 'block-contents', 'what': what, 'form': form, 'later': later}
+    for what, culprit, shape, attempts in itertools.product(('struct', 'class', 'namespace', 'function', 'constructor', 'section'),
+                                                        ('param', 'function', 'poison'), ('flat', 'nested', 'dict', 'first'), (1, 2)):
+        yield {'kind': 'failed-render', 'what': what, 'culprit': culprit, 'shape': shape, 'attempts': attempts}
     for what in ('struct', 'class', 'namespace'):
         for lines in (['int b;'], ['int b;', '', 'int c;'], ['  indented();', 'x;']):
             yield {'kind': 'rerender', 'what': what, 'lines': lines}
